@@ -339,6 +339,94 @@ fn report(ctx: &Ctx, sc: &Scen, ph: Phase, h: &[usize], k: u64, mode: FaultMode,
     });
 }
 
+/// Realistic failing models: a model with a DOMAIN (rejects tau <= bound at set_params, at evaluation or in the
+/// derivatives) fitted from starts whose trial steps cross the bound.  No injected index: the optimizer decides
+/// where the failure happens.
+fn domain_fits<T: Sc>(ctx: &Ctx, thorough: bool) {
+    use std::sync::atomic::Ordering;
+    let fams = [Family::Exp1Off, Family::Exp2Off];
+    let mut idx = 1_000_000u64;
+    for fam in fams {
+        let (a, _) = truth(&fam);
+        for at in [RejectAt::Set, RejectAt::Eval, RejectAt::Deriv] {
+            for bound_frac in [0.5, 0.9, 0.99, 1.01] {
+                for start in [1.02, 1.3, 2.0, 4.0] {
+                    for (s, par) in [(1usize, false), (2, true), (1, true)] {
+                        for patience in [2usize, 100] {
+                            for prov in [Prov::Hand, Prov::Built] {
+                                if !thorough && (prov == Prov::Built) != (s == 2) {
+                                    continue;
+                                }
+                                idx += 1;
+                                if !ctx.args.mine(idx) {
+                                    continue;
+                                }
+                                ctx.tick();
+                                let n = 12;
+                                let spec = spec_for(&fam, n);
+                                let mut y = DMatrix::<f64>::zeros(n, s);
+                                for c in 0..s {
+                                    y.set_column(c, &data(&spec, 1.0 + c as f64, 1e-2, 1 + c as u64, 17));
+                                }
+                                let yt: DMatrix<T> = mat_t(&y);
+                                let bound = a[0] * bound_frac;
+                                let a0: Vec<f64> = a.iter().map(|v| v * start).collect();
+                                let case = json!({"domain_fit": {"family": fam.name(), "reject_at": format!("{:?}", at), "reject_when_tau0_le": bound, "start": a0, "s": s, "par": par, "patience": patience, "prov": prov.name(), "scalar": T::NAME}});
+                                let api = if s == 1 { Api::Single } else { Api::Mrhs };
+                                let mk = |alpha: &[T]| Domain::wrap(make_t::<T>(&spec, prov, alpha), at, 0, bound);
+                                let a0t: Vec<T> = a0.iter().map(|&v| T::f(v)).collect();
+                                let r = guarded(|| {
+                                    let (model, errs) = ErrCounter::wrap(mk(&a0t));
+                                    let p = prob::build(model, &yt, None, None, api, par).unwrap();
+                                    let e0 = errs.load(Ordering::SeqCst);
+                                    let solver = LevenbergMarquardt::<T>::new().with_patience(patience);
+                                    let (fit, stats) = if s == 1 { p.fit_stats(solver) } else { (p.fit(solver), None) };
+                                    let e1 = errs.load(Ordering::SeqCst);
+                                    let fp = fit.problem();
+                                    let obs = observe(fp);
+                                    (fit.ok, fit.was_successful, stats.is_some(), e1 - e0, e0, obs, fit.termination.clone())
+                                });
+                                ctx.with(|st| {
+                                    st.inc("evaluations");
+                                    st.inc("domain_fits");
+                                });
+                                let (ok, successful, has_stats, errs_in_fit, errs_before, obs, term) = match r {
+                                    Err(m) => {
+                                        ctx.with(|st| st.violate("C09", "panic", case.clone(), format!("panicked: {}", m)));
+                                        continue;
+                                    }
+                                    Ok(x) => x,
+                                };
+                                let _ = (ok, errs_before);
+                                ctx.with(|st| st.bucket("domain_fit_outcome", &format!("{}{}", term.split(['(', '{', ' ']).next().unwrap_or(""), if errs_in_fit > 0 { "+model-errors" } else { "" })));
+                                if errs_in_fit > 0 {
+                                    ctx.with(|st| st.inc("distinct_nontrivial"));
+                                    if successful && obs.present() {
+                                        // admissible only if the failing call was a derivative inside a jacobian() whose None ended the fit - then it is not successful
+                                        ctx.with(|st| st.violate("C09", "fit-ok-after-failure", case.clone(), format!("the model reported {} error(s) during the fit, yet the fit is successful ({}) and exposes values", errs_in_fit, term)));
+                                    }
+                                    if has_stats {
+                                        ctx.with(|st| st.violate("C09", "statistics-ok-after-failure", case.clone(), "model errors during the fit but fit_with_statistics returned Ok".into()));
+                                    }
+                                }
+                                // present => correct for the reported parameters
+                                if obs.present() {
+                                    let pt = obs.params_t();
+                                    let fresh = prob::build(mk(&pt), &yt, None, None, api, false).unwrap();
+                                    let fo = observe(fresh.as_ref());
+                                    if fo.res != obs.res || fo.coef != obs.coef {
+                                        ctx.with(|st| st.violate("C09", "stale-values", case.clone(), format!("residuals/coefficients after the fit are not those of a fresh problem at the reported parameters {:?}", pt)));
+                                    }
+                                }
+                            }
+                        }
+                    }
+                }
+            }
+        }
+    }
+}
+
 fn scenarios(thorough: bool) -> Vec<Scen> {
     let mut v = vec![];
     let fams = [Family::Exp1Off, Family::Exp2Off, Family::OLeary];
@@ -383,6 +471,10 @@ fn main() {
                 sweep::<f64>(&ctx, &sc, depth, Some((ph, h, k, mode, ofs)));
             }
             return;
+        }
+        domain_fits::<f64>(&ctx, ctx.args.thorough());
+        if ctx.args.thorough() {
+            domain_fits::<f32>(&ctx, true);
         }
         for (i, sc) in scenarios(ctx.args.thorough()).iter().enumerate() {
             if !ctx.args.mine(i as u64) {
